@@ -17,6 +17,10 @@ import (
 // the unknownFields bytes, recursively, distinguishing nil from empty slices/maps/bytes and nil
 // pointers/interfaces from allocated ones. protoimpl's bookkeeping words (state, sizeCache) are
 // excluded: they are managed atomically by protobuf-go itself.
+// SnapshotHeaders makes the snapshot record slice capacities too: a "read" that re-slices a field has written
+// to the struct, which concurrent readers race on even if length and contents stay the same.
+var SnapshotHeaders bool
+
 func Snapshot(p proto.Message) string {
 	var sb strings.Builder
 	snapValue(&sb, reflect.ValueOf(p), 0)
@@ -71,9 +75,15 @@ func snapValue(sb *strings.Builder, v reflect.Value, depth int) {
 		}
 		if v.Type().Elem().Kind() == reflect.Uint8 {
 			sb.WriteString("x'" + hex.EncodeToString(v.Bytes()) + "'")
+			if SnapshotHeaders {
+				sb.WriteString("cap=" + strconv.Itoa(v.Cap()))
+			}
 			return
 		}
 		sb.WriteString("[" + strconv.Itoa(v.Len()) + ":")
+		if SnapshotHeaders {
+			sb.WriteString("cap=" + strconv.Itoa(v.Cap()) + ":")
+		}
 		for i := 0; i < v.Len(); i++ {
 			if i > 0 {
 				sb.WriteByte(',')
